@@ -88,6 +88,11 @@ def run(rep, tier, seed):
         b.add('semantic-parse', 'S parsesem %s' % tb(bits), o1, parse_model_sem, fails, dict(layer='coap', op='parsesem', bits=bits, options=opts), key=('sem', bits))
         if o1[0] != 'OK':
             continue
+        # the same long-lived parser object has just been asked to un-parse something it rejects (or not): no state may survive that
+        if i % 4 == 0:
+            junk = [(rnd.choice(['CoAP:Option Uri-Path', 'CoAP:Option Size1', 'CoAP:Option Block2', 'CoAP:Option Unknown', 'CoAP:Option Uri-Host']), mk(randbits(rnd, 8 * rnd.choice([0, 1, 2, 13]))))
+                    for _ in range(rnd.randint(1, 4))]
+            rep.hist['unparse:after-%s' % with_timeout(lambda: sem.unparse(junk))[0]] = rep.hist.get('unparse:after-%s' % with_timeout(lambda: sem.unparse(junk))[0], 0) + 1
         # (2) unparse
         semf = [(x.id, x.value) for x in sem.parse(buf).fields]
         want = fields_obs([(x.id, x.value) for x in syn.parse(buf).fields])
